@@ -33,7 +33,7 @@ RULE = ('cases: (a) seeded histories of 10-40 ops over 2-3 fresh TagLibrary obje
         'duplicate rejected and >=3 accepted tags; distinct by the name sequence.')
 ASSUMPTIONS = ['which hostile names are accepted is not prescribed; ordinary identifiers (upper/camel-case words) must be accepted',
                'names are str (the quantifier ranges over strings)']
-FLOORS = {'quick': {'module_names_as_str_subclass': 33, 'names_as_str_subclass': 1489, 'local_decisions_compared': 251, 'adds_accepted': 5000, 'adds_rejected_duplicate': 1500, 'adds_rejected_none': 300, 'hostile_tried': 4000,
+FLOORS = {'quick': {'module_builtin_names_used_by_the_module_tried': 20, 'short_lived_libraries': 7381, 'module_names_as_str_subclass': 33, 'names_as_str_subclass': 1489, 'local_decisions_compared': 251, 'adds_accepted': 5000, 'adds_rejected_duplicate': 1500, 'adds_rejected_none': 300, 'hostile_tried': 4000,
                     'hostile_rejected': 500, 'hostile_accepted': 500, 'id_probes': 10000, 'unknown_name_probes': 5000,
                     'full_checks': 20000, 'itemize_result_mutated': 5000, 'big_libraries': 6, 'big_tags': 800, 'module_histories': 24, 'module_hostile_tried': 210, 'contract:TagLibrary.bijection': 20000,
                     'reach:Tags.TagLibrary.add_tag': 8000},
@@ -55,6 +55,18 @@ def case_instances(ctx, case):
         tried.append((lib.label, n if len(n) < 40 else n[:20] + '...'))
         for other in libs:
             other.full_check(rng)
+    # short-lived libraries, one after the other (each is dropped before the next is made), filled WITHOUT being looked at and then
+    # checked once: a library is judged by its own tags only, whatever lived at its address before
+    for j in range(rng.randint(5, 25)):
+        quiet = LibDriver(ctx, tags, tags.TagLibrary(), 'instance', f'Q{j}')
+        for k in range(rng.randint(1, 4)):
+            name = f'Q{case["i"]}_{j}_{k}' if rng.random() < 0.7 else rng.choice(ORDINARY)
+            if name not in quiet.ref:
+                quiet.lib.add_tag(name)
+                quiet.ref.append(name)
+        quiet.full_check(rng)
+        ctx.count('short_lived_libraries')
+        del quiet
     hostile = sum(1 for _, n in tried if n not in ORDINARY)
     if hostile >= 3 and any(l.rejected_dups for l in libs) and sum(len(l.ref) for l in libs) >= 3 + len(libs):
         ctx.distinct(tuple(tried))
